@@ -162,6 +162,7 @@ def check(ctx, tier):
     obs += ctx.attempt(lambda c, cl: scanner.quoted_token_contract(c, cl)[0], ctx, "D-g", default=[])
     obs += ctx.attempt(lambda c, cl: gens.check(c, cl)[0], ctx, "D-h", default=[])
     obs += ctx.attempt(scanner.literal_type_table, ctx, "D-i", default=[])
+    obs += ctx.attempt(scanner.numeric_token_table, ctx, "D-j", default=[])
     exceptions.apply(obs)
     return {"obs": obs, "floors": [Floor("R-TABLE rows evaluated", rows, 20), Floor("memo sites", n_memo, 3)],
             "explanation": "Decision tables of the relaxation (?, * and probability 1 with the original figures kept), of the offered "
